@@ -23,6 +23,10 @@ var (
 	// ErrMissingAddrs indicates that no subnets were provided with addresses to select from. This
 	// is only valid for phantomHkdfMinVersion and newer.
 	ErrMissingAddrs = errors.New("no valid addresses specified to select")
+
+	// ErrAddrOutOfRange indicates that the selected address does not fit into the address length
+	// of its IP version.
+	ErrAddrOutOfRange = errors.New("selected address out of range for its IP version")
 )
 
 // getSubnetsHkdf returns EITHER all subnet strings as one composite array if
@@ -183,7 +187,25 @@ func selectAddrFromSubnetOffset(net1 *phantomNet, offset *big.Int) (*PhantomIP, 
 	}
 
 	ipBigInt.Add(ipBigInt, offset)
-	ip := net.IP(ipBigInt.Bytes())
+	ip, err := ipFromBigInt(ipBigInt, net1.IP.To4() != nil)
+	if err != nil {
+		return nil, err
+	}
 
 	return &PhantomIP{ip: &ip, supportRandomPort: net1.supportRandomPort}, nil
+}
+
+// ipFromBigInt encodes an address that was computed with big.Int arithmetic as a net.IP of the
+// full length of its family (4 bytes for IPv4, 16 bytes for IPv6). big.Int.Bytes() drops leading
+// zero bytes, so it cannot be used directly: every address in a network whose first byte is zero
+// (e.g. 0.1.2.0/24 or 64:ff9b::/96) would come out shorter than a valid net.IP.
+func ipFromBigInt(addr *big.Int, isV4 bool) (net.IP, error) {
+	ipLen := net.IPv6len
+	if isV4 {
+		ipLen = net.IPv4len
+	}
+	if addr.Sign() < 0 || addr.BitLen() > 8*ipLen {
+		return nil, ErrAddrOutOfRange
+	}
+	return net.IP(addr.FillBytes(make([]byte, ipLen))), nil
 }
